@@ -23,6 +23,7 @@ Record ad_case := mk_ad {
   ad_rt : list float;                       (* np.sqrt(eigvals) *)
   ad_passes : nat;                          (* passes of the loop (0: the K < 3 branch) *)
   ad_replay2 : bool;                        (* replay a 2-pass call exactly (costly: chosen by the harness for small calls) *)
+  ad_nu : Z;                                (* returned nu when it is the scalar 2*K of the few-taper branch, else -1 *)
   ad_w : list (list float)                  (* returned weights: K rows of L *)
 }.
 
@@ -52,7 +53,8 @@ Definition check_ad (c : ad_case) : bool :=
   (length ws =? K)%nat && lens_are L ws && lens_are N (ad_y c) && (length (ad_eig c) =? K)%nat
   && all2 (fun r l => sqrt_rel r l) (rowq (ad_rt c)) (rowq (ad_eig c))
   && if (K <? 3)%nat then
-       (ad_passes c =? 0)%nat && forallb (fun k => forallb (fun f => closeb (w k f) (rt k)) (seq 0 L)) (seq 0 K)
+       (ad_passes c =? 0)%nat && (ad_nu c =? Z.of_nat (ad_nu_few K))%Z
+       && forallb (fun k => forallb (fun f => closeb (w k f) (ad_weights_few rt k f)) (seq 0 L)) (seq 0 K)
      else
        let var := Qred (ad_var sd N K lam Y) in
        let bb := fun k => Qred (ad_bb lam var k) in
